@@ -180,7 +180,8 @@ ADDENDA = {
     "C04": " Comprehension = loop (C04Compr, 12 audited): comprStep_order (per item the filter is evaluated once and FIRST - the repaired order -, then key, then value; an item that fails the filter evaluates nothing else; first error wins), compr_filter_map / list_compr_filter_map / set_compr_filter_map / map_compr_filter_map (under purity of filter and element on the items that pass - nothing is asked of the element on rejected items - the comprehension yields a fresh cell holding (xs.filter c).map g, resp. its setAdd / mapPut fold = mkSet / mkMap), for_append_filter_map (the explicit loop `def r = []; for x in e do if c then append(r, ve) end; r`, exactly the AST the parser builds) and compr_equals_loop_list: both end in cells with the SAME contents.",
     "C16": " Library functions written in the language (C16Src, 157 audited, over the ASTs REGENERATED from src/ckl/modules/*.ckl on every run): the theorems of C19Src / C18Src that carry `Ext` (no frame, heap cell or output that existed before changed: union / intersection / diff / symmetric_diff, reverse_list, reduce, gcd, join, replace, filter, flatten, map_list, chunks, pairs, first_n, last_n, ...), `ExtBut a` (append_all changes exactly its first argument, also on a set cell) or freshness of the result cell (rest, reverse_list, first_n, chunks incl. the copied last chunk, pairs, map_list, filter), restated in C16's words (union_does_not_modify_its_arguments, append_all_changes_exactly_its_first_argument, chunks_returns_fresh_cells, ...).",
     "C15": " Evaluator level (C15Eval, 78 property theorems / 158 audited): the indexing node `s[i]` (strings and list cells, every int, negative from the end, exactly the runtime error 'ERROR' \"Index out of bounds\" at the node's position otherwise; booleans / decimals / invalid index kinds), the slice node `s[a to b]` / `s[a to *]` (= the clamped contiguous run; a list slice is a fresh cell, the operand unchanged), and substr / sublist / find / find_last / insert_at / delete_at / length / `+` through callPure and through call nodes compute exactly the Seq functions of the textbook theorems; the identities through the evaluator: `s[0 to k] + s[k to *] == s` evaluates to TRUE for every string, every list of self-equal values and every int k (split_join_str, split_join_list), length_slice, find_neg_one_iff_not_infix, delete_insert_restores for every int index.",
-    "C18": " Theorems about the string library SOURCE by the translator route (C18Src, 21 audited): reverse_src (= List.reverse, involutive), join_src (= intercalate; join_split_src: join(split(s, sep), sep) = s for the source), q_src, replace_src (the recursive source = left-to-right non-overlapping substitution behind `start`, explicit fuel 30 * (length - start) + 30), replace_src_empty_pattern, esc_src, each with `Ext`; mutants of string.ckl break the proofs at check time, a comment-only change does not.",
+    "C18": " Theorems about the string library SOURCE by the translator route (C18Src, 21 audited): reverse_src (= List.reverse, involutive), join_src (= intercalate; join_split_src: join(split(s, sep), sep) = s for the source), q_src, replace_src (the recursive source = left-to-right non-overlapping substitution behind `start`, explicit fuel 30 * (length - start) + 30), replace_src_empty_pattern, esc_src, each with `Ext`; mutants of string.ckl break the proofs at check time, a comment-only change does not."
+           " Evaluator level (C18Eval, 56 property theorems / 106 audited): contains / starts_with / ends_with / chr / ord / length / string / `+` through callPure, through call nodes, the operator nodes and the `in` node compute exactly the Str functions (native_contains = decide infix, native_chr_total and native_ord_total with the exact errors, native_add_render: string + int / decimal / boolean / date is concatenation with the rendered value), and the consistency laws of the property evaluate to TRUE for ALL strings with explicit fuel and the state unchanged: law_contains_find (contains(s, t) == (find(s, t) >= 0)), law_starts_with_append, law_ends_with_append, law_length_append, law_add_empty, law_in_contains, law_chr_ord, law_ord_chr.",
     "C07": " Evaluator level (C07EvalAudit, theorems of the C06Eval family): the natives less / less_equals / greater / greater_equals / compare are vlt and its derived relations on reified values (native_less_eq, compare_consistent, less_trichotomy); nativeSorted without cmp / key returns a fresh cell holding the stable sorted permutation (sorted_list_spec, sorted_list_sorted_stable, sorted_set_spec, sorted_list_by_length); for loops, comprehensions and spread over a set or the keys of a map visit the elements in strictly ascending vlt order (for_set_order, for_map_keys_order, compr_set_order, spread_item_set_order).",
     "C06": " Evaluator level (C06Eval, 135 audited): the BRIDGE between the heap values programs run on and the tree values of the theorems - under the heap well-formedness HeapOK, rveq / rvlt / rrender / memR / mapGet / sortedR / setAdd / mapPut / mapDel agree with veq / vlt / render / membership / lookup / mkSet / dedupKeepFirst / assocPut; hence the native `equals` is an equivalence that never relates different kinds (equals_refl/symm/trans, equals_cross_kind, numeric equality iff equal rationals), `in`, `m[k]`, remove, contains respect it (memR_congr, mapGet_congr, in_set_congr, index_congr), set literals / set() / append never hold two equal elements (addSet_spec, set_literal_spec); HeapOK is preserved by allocation of well-formed cells (heapOK_alloc), with witnesses showing each side condition necessary.",
     "C05": " From source text (C05EndToEnd): uncaught_error_reaches_interpret_src; error_literal_reaches_interpret - the text `error <v>` for every data value v ends the call with a runtime error whose value is exactly v; finally_exactly_once_src for every text and every session.",
